@@ -150,6 +150,9 @@ package corebgp
 //@   ensures [length_octet] len(b) >= 10 && b[9] != len(b) - 10 ==> isOutNotifErr(err, 2, 0) && len(notifOf(err).Data) == 0
 //@   ensures [fixed_fields] err == nil ==> len(b) >= 10 && b[9] == len(b) - 10 && o.version == b[0] && o.asn == be16(b, 1) && o.holdTime == be16(b, 3) && o.bgpID == be32(b, 5)
 //@   ensures [params_tile]  err == nil ==> len(o.optionalParams) >= 1 && capChain(b[10:], poffs, len(o.optionalParams), len(b) - 10) && (forall k :: 0 <= k && k < len(o.optionalParams) ==> capOK(b[10:], poffs[k]) && b[10 + poffs[k]] == 2 && isType(o.optionalParams[k], *capabilityOptionalParam) && asType(o.optionalParams[k], *capabilityOptionalParam) != nil)
+//@   ghostvar paramsErr bool = false
+//@   at call decodeOptionalParams#0 after set paramsErr = result1 != nil
+//@   ensures [errors_only_for_malformed_bodies] err != nil ==> len(b) < 10 || b[9] != len(b) - 10 || paramsErr
 //@   ensures [params_typed] err == nil ==> (forall k :: 0 <= k && k < len(o.optionalParams) ==> isType(o.optionalParams[k], *capabilityOptionalParam) && asType(o.optionalParams[k], *capabilityOptionalParam) != nil)
 //@   ensures [error_is_notification] err != nil ==> isType(err, *notificationError) && asType(err, *notificationError) != nil && asType(err, *notificationError).out && notifOf(err) != nil && (notifOf(err).Code == 1 || notifOf(err).Code == 2)
 //@   ensures [error_data_short] err != nil ==> len(notifOf(err).Data) <= 9
